@@ -99,6 +99,18 @@ impl TlsListener {
     }
 }
 
+#[cfg(feature = "verif_hooks")]
+impl TlsListener {
+    /// (0 = found, 1 = need more data, 2 = not found, value)
+    pub(crate) fn verif_extract_client_random(data: &[u8]) -> (u8, Option<Vec<u8>>) {
+        match Self::extract_client_random(data) {
+            ClientRandomExtraction::Found(x) => (0, Some(x)),
+            ClientRandomExtraction::NeedMoreData => (1, None),
+            ClientRandomExtraction::NotFound => (2, None),
+        }
+    }
+}
+
 enum ClientRandomExtraction {
     Found(Vec<u8>),
     NeedMoreData,
